@@ -166,6 +166,7 @@ class Sim:
         self.models = _m
         self.oracle_hook = oracle_hook   # fn(st, label, method, args, ret_ty) -> value or None
         self.inline_filter = None        # fn(fnjson) -> bool : False => treat as opaque term
+        self.oracle_fresh = False        # True: every oracle call gets its own answer, even when the receiver was not mutated in between
         self.stats = {"steps": 0, "forks": 0, "calls_inlined": 0, "models_used": set(), "oracles": set()}
 
     # ------------------------------------------------------------------ type helpers
@@ -800,6 +801,11 @@ class Sim:
             if kind == "IntToInt":
                 if isinstance(v, Const) and isinstance(v.val, (int, bool)):
                     return Const(wrap_int(int(v.val), tty), tty)
+                sty = getattr(v, "ty", None)
+                sb = INT_BITS.get(sty.get("name")) if sty and sty.get("k") == "prim" else None
+                db = INT_BITS.get(tty.get("name")) if tty and tty.get("k") == "prim" else None
+                if sb and db and db < sb:
+                    return Term("Cast:IntTrunc", (v,), tty)      # narrowing: drops the high bits, NOT the identity
                 return v if isinstance(v, (Sym, Lin)) else Term("Cast:IntToInt", (v,), tty)
             if kind == "Transmute":
                 if isinstance(v, Ref):
@@ -1081,6 +1087,9 @@ class Sim:
         self.stats["oracles"].add("%s::%s" % (trait, method))
         st.effects.append(("call", label, "%s::%s" % (trait, method), tuple(args[1:])))
         key = (label, method, ver, tuple(args[1:]))
+        if self.oracle_fresh:
+            # adversarial environment: a repeated poll of the same object is a NEW answer (external getters are not pure)
+            key = key + (len([1 for e in st.effects if e[0] == "call" and e[1] == label and e[2].endswith("::" + method)]),)
         if key in st.oracle:
             return st.oracle[key]
         v = None
@@ -1100,6 +1109,8 @@ class Sim:
                 self.models.release_guard(self, st, v)
             elif v.kind == "LockGuard":
                 st.effects.append(("unlock", v.data[0], self.obj_label(st, v.data[1])))
+            elif v.kind == "RBorrow":
+                st.effects.append(("ref_release", self.obj_label(st, v.data[0])))
             elif v.kind in ("Closure",):
                 for x in v.data[1]:
                     self.drop_value(st, x, depth + 1)
